@@ -14,10 +14,11 @@ import numpy as np
 from common import F, Rng, close, fl, rs
 
 ENTRIES = ["dense_smooth", "dense_smooth", "dense_mean", "dense_cov", "irr_smooth", "irr_mean", "dense_smooth2d",
-           "multi_smooth", "multi_mean"]
+           "multi_smooth", "multi_mean", "dense_smooth3d"]
 ENTRY_NAME = {
     "dense_smooth": "DenseFunctionalData.smooth", "dense_mean": "DenseFunctionalData.mean", "dense_cov": "DenseFunctionalData.covariance",
     "irr_smooth": "IrregularFunctionalData.smooth", "irr_mean": "IrregularFunctionalData.mean", "dense_smooth2d": "DenseFunctionalData.smooth",
+    "dense_smooth3d": "DenseFunctionalData.smooth",
     "multi_smooth": "MultivariateFunctionalData.smooth", "multi_mean": "MultivariateFunctionalData.mean",
 }
 DOMS = {"unit": (Fraction(0), Fraction(1)), "doy": (Fraction(1), Fraction(364)), "shift1000": (Fraction(1000), Fraction(1)),
@@ -38,8 +39,11 @@ def gen_entry_case(rng: Rng, tier, force=None):
     kernel = rng.choice(COMPACT + ["gaussian"])
     degree = rng.choice([0, 1, 1, 2])
     hu = rng.choice([Fraction(3, 8), Fraction(1, 2), Fraction(3, 4), Fraction(1)])
+    three_d = entry == "dense_smooth3d"
     two_d = entry == "dense_smooth2d"
-    m = rng.choice([6, 7]) if two_d else rng.choice([8, 9] if entry == "dense_cov" else [9, 13, 17])
+    if three_d:
+        degree, hu = min(degree, 1), Fraction(1)
+    m = 4 if three_d else rng.choice([6, 7]) if two_d else rng.choice([8, 9] if entry == "dense_cov" else [9, 13, 17])
     g = _grid(rng, m)
     if entry == "dense_cov":
         degree, hu = min(degree, 1), max(hu, Fraction(1, 2))
@@ -68,7 +72,12 @@ def gen_entry_case(rng: Rng, tier, force=None):
     poly = lambda t: sum(c * t ** k for k, c in enumerate(coefs))  # noqa: E731
     if intgrid:
         case["intgrid"] = True
-    if two_d:
+    if three_d:
+        g2, g3 = _grid(rng, 3), _grid(rng, 3)
+        case["x"], case["x2"], case["x3"] = X(g), X(g2), X(g3)
+        case["Y"] = [[[[rs(rng.dyadic(-4, 4, 3)) for _ in g3] for _ in g2] for _ in g] for _ in range(rng.randint(1, 2))]
+        case["q"], case["q2"], case["q3"] = X([Fraction(40, 128), Fraction(90, 128)]), X([Fraction(30, 128), Fraction(70, 128)]), X([Fraction(64, 128)])
+    elif two_d:
         g2 = _grid(rng, rng.choice([5, 6]))
         if intgrid:
             g2 = [Fraction(j, 364) for j in sorted(rng.sample(range(0, 365), len(g2)))]
@@ -99,7 +108,7 @@ def gen_entry_case(rng: Rng, tier, force=None):
         case["own"] = True
         case["q"] = case["x"]
         case["polyq"] = [rs(poly(t)) for t in g]
-    elif not two_d:
+    elif not two_d and not three_d:
         nq = 4 if entry == "dense_cov" else 5
         qs = sorted(set([g[rng.randrange(m)]] + [Fraction(rng.randint(2, 126), 128) for _ in range(nq)]))[:nq]
         case["q"] = X(qs)
@@ -118,7 +127,25 @@ def _Fv(v):
     return [F(t) for t in v]
 
 
-def _build(case, mapx, dtype=None):
+def _relayout(a, layout):
+    """The same numbers in another memory layout (never C-contiguous for arrays of dimension >= 2)."""
+    a = np.asarray(a)
+    if layout is None:
+        return a
+    if layout == "F":
+        return np.asfortranarray(a) if a.ndim > 1 else a[::-1].copy()[::-1]
+    if layout == "T":                                    # a transposed view: the last axis is the slowest in memory
+        return np.moveaxis(np.ascontiguousarray(np.moveaxis(a, -1, 0)), 0, -1) if a.ndim > 1 else a[::-1].copy()[::-1]
+    if layout == "neg":                                  # negative strides along the last axis
+        return a[..., ::-1].copy()[..., ::-1]
+    if layout == "slice":                                # a non-contiguous slice of a wider array
+        big = np.zeros(a.shape[:-1] + (2 * a.shape[-1] + 1,), dtype=a.dtype)
+        big[..., 1::2] = a
+        return big[..., 1::2]
+    raise ValueError(layout)
+
+
+def _build(case, mapx, dtype=None, layout=None):
     """Data object of the case with the sampling points mapped by `mapx(list of Fractions, axis)`; returns (object, exact).
     `dtype`: hand the (integer-valued) sampling points over with this integer dtype."""
     from FDApy.representation.argvals import DenseArgvals, IrregularArgvals
@@ -132,20 +159,27 @@ def _build(case, mapx, dtype=None):
         ex = mapx(_Fv(v), axis)
         fv = [float(t) for t in ex]
         exact = exact and all(Fraction(f) == t for f, t in zip(fv, ex))
-        return np.array(fv) if dtype is None else np.array([int(t) for t in ex], dtype=dtype)
+        a = np.array(fv) if dtype is None else np.array([int(t) for t in ex], dtype=dtype)
+        return _relayout(a, "neg" if layout else None)
+
+    def vals(nested):
+        def conv(z):
+            return [conv(t) for t in z] if isinstance(z, list) else float(F(z))
+        return _relayout(np.array(conv(nested)), layout)
 
     entry = case["entry"]
     if entry.startswith("irr"):
         arg = IrregularArgvals({i: DenseArgvals({"input_dim_0": arr(o["t"])}) for i, o in enumerate(case["obs"])})
-        val = IrregularValues({i: np.array(fl(_Fv(o["y"]))) for i, o in enumerate(case["obs"])})
+        val = IrregularValues({i: _relayout(np.array(fl(_Fv(o["y"]))), "neg" if layout else None) for i, o in enumerate(case["obs"])})
         return IrregularFunctionalData(arg, val), exact
-    if entry == "dense_smooth2d":
-        arg = DenseArgvals({"input_dim_0": arr(case["x"], 0), "input_dim_1": arr(case["x2"], 1)})
-        fd = DenseFunctionalData(arg, DenseValues(np.array([[[float(F(t)) for t in r] for r in Yk] for Yk in case["Y"]])))
+    if entry in ("dense_smooth2d", "dense_smooth3d"):
+        keys = ["x", "x2", "x3"][: 3 if entry == "dense_smooth3d" else 2]
+        arg = DenseArgvals({f"input_dim_{k}": arr(case[key], min(k, 1)) for k, key in enumerate(keys)})
+        fd = DenseFunctionalData(arg, DenseValues(vals(case["Y"])))
         return fd, exact
-    fd = DenseFunctionalData(DenseArgvals({"input_dim_0": arr(case["x"])}), DenseValues(np.array([[float(F(t)) for t in r] for r in case["X"]])))
+    fd = DenseFunctionalData(DenseArgvals({"input_dim_0": arr(case["x"])}), DenseValues(vals(case["X"])))
     if entry.startswith("multi"):
-        fd2 = DenseFunctionalData(DenseArgvals({"input_dim_0": arr(case["x"])}), DenseValues(np.array([[float(F(t)) for t in r] for r in case["X"]])[::-1].copy()))
+        fd2 = DenseFunctionalData(DenseArgvals({"input_dim_0": arr(case["x"])}), DenseValues(_relayout(np.array(vals(case["X"]))[::-1].copy(), layout)))
         return MultivariateFunctionalData([fd, fd2]), exact
     return fd, exact
 
@@ -157,8 +191,8 @@ def _points(case, mapx):
     d = {}
     if case.get("own"):
         return None, True   # points=None: the entry point evaluates at the sampling points of the data
-    for axis, key in enumerate(["q", "q2"][: 2 if case["entry"] == "dense_smooth2d" else 1]):
-        ex = mapx(_Fv(case[key]), axis)
+    for axis, key in enumerate(["q", "q2", "q3"][: {"dense_smooth2d": 2, "dense_smooth3d": 3}.get(case["entry"], 1)]):
+        ex = mapx(_Fv(case[key]), min(axis, 1))
         fv = [float(t) for t in ex]
         exact = exact and all(Fraction(f) == t for f, t in zip(fv, ex))
         d[f"input_dim_{axis}"] = np.array(fv)
@@ -168,7 +202,7 @@ def _points(case, mapx):
 def _call(case, fd, pts, h):
     entry = case["entry"]
     kw = dict(kernel_name=case["kernel"], degree=case["degree"])
-    if entry in ("dense_smooth", "irr_smooth", "dense_smooth2d"):
+    if entry in ("dense_smooth", "irr_smooth", "dense_smooth2d", "dense_smooth3d"):
         return np.asarray(fd.smooth(points=pts, method="LP", bandwidth=h, **kw).values)
     if entry in ("dense_mean", "irr_mean"):
         return np.asarray(fd.mean(points=pts, method_smoothing="LP", bandwidth=h, **kw).values)
@@ -241,6 +275,14 @@ def run_entry(case):
                 out["int_vals"][np.dtype(dt).name] = _call(case, fdi, pts, h).tolist()
             except Exception as e:  # noqa: BLE001
                 out["int_vals"][np.dtype(dt).name] = f"{type(e).__name__}: {str(e)[:80]}"
+    # memory layout of the values and of the grids: the same numbers must give the same estimates
+    out["layouts"] = {}
+    for lay in ("F", "T", "neg", "slice"):
+        try:
+            fdl, _ = _build(case, ident, layout=lay)
+            out["layouts"][lay] = _call(case, fdl, pts, h).tolist()
+        except Exception as e:  # noqa: BLE001
+            out["layouts"][lay] = f"{type(e).__name__}: {str(e)[:80]}"
     aF, shifts = F(case["a"]), [F(case["b"]), F(case["b2"])]
     aff = lambda v, axis: [aF * t + shifts[axis] for t in v]  # noqa: E731
     fda, e1 = _build(case, aff)
@@ -261,6 +303,15 @@ def run_entry(case):
             for xs, ys in data:
                 _, c, k = c06.reference_wls(np.array(fl(xs)), np.array(fl(ys)), q, float(out["seen_h"]), case["kernel"], case["degree"])
                 out["_cond_impl"].append(c), out["_npos_impl"].append(k)
+    elif case["entry"] == "dense_smooth3d":
+        x = np.array([[float(F(a)), float(F(b)), float(F(c))] for a in case["x"] for b in case["x2"] for c in case["x3"]])
+        q = np.array([[float(F(a)), float(F(b)), float(F(c))] for a in case["q"] for b in case["q2"] for c in case["q3"]])
+        ref, cond, npos = [], [], []
+        for Yk in case["Y"]:
+            y = np.array([float(F(t)) for A in Yk for B in A for t in B])
+            r, c, k = c06.reference_wls(x, y, q, h, case["kernel"], case["degree"])
+            ref.append(r), cond.append(c), npos.append(k)
+        out["_ref"], out["_cond"], out["_npos"] = ref, cond, npos
     elif case["entry"] == "dense_smooth2d":
         x = np.array([[float(F(a)), float(F(b))] for a in case["x"] for b in case["x2"]])
         q = np.array([[float(F(a)), float(F(b))] for a in case["q"] for b in case["q2"]])
@@ -310,6 +361,8 @@ def _scale_of(case, k):
     data = _known_data(case)
     if data is not None:
         return max([abs(float(t)) for t in data[min(k, len(data) - 1)][1]] + [1e-300])
+    if case["entry"] == "dense_smooth3d":
+        return max([abs(float(F(t))) for A in case["Y"][min(k, len(case["Y"]) - 1)] for B in A for t in B] + [1e-300])
     if case["entry"] == "dense_smooth2d":
         return max([abs(float(F(t))) for r in case["Y"][0] for t in r] + [1e-300])
     return max([abs(float(F(t))) for r in case["X"] for t in r] + [1e-300]) ** 2
@@ -318,7 +371,7 @@ def _scale_of(case, k):
 def _ok(case, impl, k, j, as_impl=False):
     import c06
 
-    need = case["degree"] + 1 if case["entry"] != "dense_smooth2d" else len(c06.monos2(case["degree"]))
+    need = {"dense_smooth2d": len(c06.monos2(case["degree"])), "dense_smooth3d": 1 + 3 * case["degree"]}.get(case["entry"], case["degree"] + 1)
     ck, nk = ("_cond_impl", "_npos_impl") if (as_impl and "_cond_impl" in impl) else ("_cond", "_npos")
     c, n = impl[ck][k][j], impl[nk][k][j]
     return np.isfinite(c) and c <= c06.COND_OK and n >= need
@@ -367,6 +420,15 @@ def entry_oracle(case, impl):
     arows = _rows(case, impl["affine"])
     if not np.all(np.isfinite(rows)):
         bad("finite", f"non-finite value from {where}")
+    for name, r in impl.get("layouts", {}).items():
+        desc = {"F": "Fortran order", "T": "a transposed (moveaxis) view", "neg": "negative strides", "slice": "a non-contiguous slice of a wider array"}[name]
+        if isinstance(r, str):
+            bad("memory_layout", f"values / grids in {desc}: raises {r} (the C-contiguous arrays with the same numbers are accepted) — {where}")
+        else:
+            rl = _rows(case, r)
+            if rl.shape != rows.shape or not np.allclose(rl, rows, rtol=0, atol=1e-10 * max(_scale_of(case, 0), 1e-300)):
+                i_ = int(np.argmax(np.abs(rl - rows))) if rl.shape == rows.shape else 0
+                bad("memory_layout", f"values / grids in {desc}: value {rl.ravel()[i_]!r} but the C-contiguous arrays with the same numbers give {rows.ravel()[i_]!r} — {where}")
     for name, r in impl.get("int_vals", {}).items():
         if isinstance(r, str):
             bad("dtype_inputs", f"sampling points as {name}: raises {r} (the same numbers as float64 are accepted) — {where}")
